@@ -164,6 +164,25 @@ def goodAB (S : List Seg) : Bool :=
   S.all segShapeB && allApartB (S.flatMap (fun s => [s.on.p.x, s.cn.p.x])) &&
   allApartB (S.flatMap (fun s => [s.on.p.y, s.cn.p.y])) && identB S
 
+
+/-- decidable form of `SepInput ∧ NoCentreInside` (Lemmas/PlanariseInput.lean, PlanariseEdges.lean): the hypothesis of
+the whole-pipeline theorems on the raw input -/
+def ptPairsB : List Pt → List (Pt × Pt)
+  | a :: b :: rest => (a, b) :: ptPairsB (b :: rest)
+  | _ => []
+
+def sepInputB (inp : Input) : Bool :=
+  inp.nodes.all (fun a => inp.nodes.all (fun b => (!(a.p == b.p) || a == b) && (!(a.id == b.id) || a == b))) &&
+  inp.edges.all (fun e => inp.nodes.contains e.src && inp.nodes.contains e.tgt &&
+    e.route == e.src.p :: interior e.route ++ [e.tgt.p] &&
+    (ptPairsB e.route).all (fun pq => (pq.1.x == pq.2.x && !(pq.1.y == pq.2.y)) || (pq.1.y == pq.2.y && !(pq.1.x == pq.2.x)))) &&
+  allApartB ((inp.nodes.map (·.p) ++ inp.edges.flatMap (·.route)).map (·.x)) &&
+  allApartB ((inp.nodes.map (·.p) ++ inp.edges.flatMap (·.route)).map (·.y)) &&
+  inp.edges.all (fun e => (interior e.route).all (fun q => inp.nodes.all (fun n => !(n.p == q)))) &&
+  inp.edges.all (fun e => (ptPairsB e.route).all (fun pq => inp.nodes.all (fun n =>
+    !((n.p.y == pq.1.y && n.p.y == pq.2.y && ((decide (pq.1.x < n.p.x) && decide (n.p.x < pq.2.x)) || (decide (pq.2.x < n.p.x) && decide (n.p.x < pq.1.x)))) ||
+      (n.p.x == pq.1.x && n.p.x == pq.2.x && ((decide (pq.1.y < n.p.y) && decide (n.p.y < pq.2.y)) || (decide (pq.2.y < n.p.y) && decide (n.p.y < pq.1.y))))))))
+
 /-! ### the property's clauses on a concrete result -/
 
 /-- the points the sweep is meant to report: a horizontal `h` and a vertical `v` with
